@@ -72,14 +72,17 @@ class Main(Suite):
             for p in packs:
                 init |= p
             threads = []
+            repack = rng.random() < 0.12          # a few scenarios: another process repacks (outside the model)
             for _ in range(rng.randrange(3, 10)):
                 kind = pick_weighted(rng, [(6, "lookup"), (1, "reindex"), (1, "notify"), (1, "extpack"), (1, "extloose")])
+                if kind == "extpack" and repack and not any(t["kind"] == "extrepack" for t in threads):
+                    kind = "extrepack"
                 if kind == "lookup":
                     present = [k for k in range(NOBJ) if init >> k & 1]
                     k = rng.choice(present) if present and rng.random() < 0.6 else rng.randrange(NOBJ)
                     threads.append({"kind": "lookup", "k": k, "op": rng.choice(["get", "has", "size"])})
-                elif kind == "reindex":
-                    threads.append({"kind": "reindex"})
+                elif kind in ("reindex", "extrepack"):
+                    threads.append({"kind": kind})
                 elif kind in ("notify", "extpack"):
                     threads.append({"kind": kind, "p": rmask(rng, 0.3) or 1})
                 else:
@@ -92,6 +95,8 @@ class Main(Suite):
         return cases
 
     def model_expr(self, c):
+        if any(t["kind"] == "extrepack" for t in c["threads"]):
+            return None          # packs disappear: outside the model (disk only grows there)
         return "c23_run %s %d%%N %s %s" % (coq_list(["%d%%N" % p for p in c["packs"]]), c["loose"],
                                            coq_list([thread_coq(t) for t in c["threads"]]),
                                            coq_list(["%d%%nat" % i for i in c["sched"]]))
@@ -110,10 +115,8 @@ class Main(Suite):
                 continue
             errs = (r.get("extra") or {}).get("errs") or []
             if errs:
-                same = any(t["kind"] == "notify" for t in c["threads"])
-                closed = all(("already closed" in e or "reset and read header" in e or "file closed" in e) for e in errs)
-                fails[c["id"]] = "spurious failure under concurrency%s: %s" % (
-                    " [same-instance pack writer, descriptor closed]" if same and closed else "", "; ".join(errs[:3]))
+                rep = any(t["kind"] == "extrepack" for t in c["threads"]) and not any(e.startswith("harness:") for e in errs)
+                fails[c["id"]] = "spurious failure under concurrency%s: %s" % (" [while another process repacks]" if rep else "", "; ".join(errs[:3]))
                 continue
             outs = parse_out(r["out"])
             init = c["loose"]
@@ -135,12 +138,18 @@ class Main(Suite):
                     fails[c["id"]] = "%s of stored object %d = %s while other goroutines read / add packs" % (t["op"], k, o)
                 elif not (final >> k & 1) and o != "false":
                     fails[c["id"]] = "%s of absent object %d = %s" % (t["op"], k, o)
+        self.race_scan(ctx, cases, fails)
         return fails
 
-    def extra(self, ctx, cases, impl, model):
+    def race_scan(self, ctx, cases, fails):
+        """thorough tier: the same scenarios under Go's race detector (search aid: a report is a genuine data race,
+        absence proves nothing).  A report fails the first scenario of the batch that produced it."""
+        import json
+        import re
+        import subprocess
+        self.race = {"race_build": "skipped"}
         if ctx.tier != "thorough" or os.environ.get("VERIF_NO_RACE") == "1":
-            return {}
-        # search aid: the same scenarios under the race detector
+            return
         args = ["go", "build", "-race", "-tags", "verif"]
         alt = os.path.join(core.HARNESS, "alt.mod")
         if os.path.realpath(core.REPO) != "/repo" and os.path.exists(alt):
@@ -149,20 +158,35 @@ class Main(Suite):
         rc, out = core.sh(args, cwd=core.HARNESS, env=dict(core.GOENV, CGO_ENABLED="1"), timeout=900)
         if rc != 0:
             ctx.notes.append("race build unavailable: " + out[-300:])
-            return {"race_build": "unavailable"}
-        sub = [dict(c) for c in cases[:300]]
-        import json, subprocess
-        data = "".join(json.dumps(c) + "\n" for c in sub).encode()
-        p = subprocess.run([os.path.join(core.HARNESS, "bin", "c23race")], input=data, stdout=subprocess.PIPE, stderr=subprocess.PIPE,
-                           timeout=1800, env=dict(core.GOENV, GORACE="halt_on_error=0"))
-        races = p.stderr.decode("utf-8", "replace").count("WARNING: DATA RACE")
-        if races:
-            ctx.notes.append("race detector: %d reports; first: %s" % (races, p.stderr.decode("utf-8", "replace")[:1500]))
-        self.race_reports = races
-        return {"race_cases": len(sub), "race_reports": races}
+            self.race = {"race_build": "unavailable"}
+            return
+        sub = cases[:300]
+        reports = 0
+        for i in range(0, len(sub), 25):
+            batch = sub[i:i + 25]
+            data = "".join(json.dumps(c) + "\n" for c in batch).encode()
+            try:
+                p = subprocess.run([os.path.join(core.HARNESS, "bin", "c23race")], input=data, stdout=subprocess.PIPE,
+                                   stderr=subprocess.PIPE, timeout=900, env=dict(core.GOENV, GORACE="halt_on_error=0"))
+            except subprocess.TimeoutExpired:
+                ctx.notes.append("race run timed out on cases %d.." % batch[0]["id"])
+                continue
+            err = p.stderr.decode("utf-8", "replace")
+            n = err.count("WARNING: DATA RACE")
+            if n:
+                reports += n
+                frames = re.findall(r"\n  (\S+)\(\)\n      (\S+)", err)[:6]
+                why = "data race reported by the race detector (%d reports in scenarios %d..%d): %s" % (
+                    n, batch[0]["id"], batch[-1]["id"], " <- ".join(f[0].split("/")[-1] + "@" + f[1].split("/")[-1] for f in frames))
+                fails.setdefault(batch[0]["id"], why)
+        self.race = {"race_build": "ok", "race_cases": len(sub), "race_reports": reports}
 
+    def extra(self, ctx, cases, impl, model):
+        return dict(getattr(self, "race", {}))
 
     def finding_class(self, case, reason, reply):
+        if "[while another process repacks]" in reason:
+            return "external-repack-stale-index"
         return None
 
 
